@@ -46,13 +46,9 @@ Definition cs_push_string (c : cssfmt) (o : ostream) (value : str) : ostream := 
 
 (* prev_end as in model/CssFormat.v: None = -1, Some None = Python None, Some (Some n) = n *)
 Definition same_pos (start : option nat) (prev_end : option (option nat)) : bool :=
-  match prev_end with
-  | None => false
-  | Some e => match start, e with
-              | None, None => true
-              | Some a, Some b => Nat.eqb a b
-              | _, _ => false
-              end
+  match start, prev_end with
+  | Some a, Some (Some b) => Nat.eqb a b
+  | _, _ => false                  (* repaired: a Field without a position is never adjacent *)
   end.
 Definition q_of (single : bool) : str := if single then [c_squote] else [c_dquote].
 
